@@ -79,14 +79,21 @@ def explore(h, variant, tier, max_paths):
         except Exception as e:
             # exception escaping the real code on this path: feasible?
             tb = traceback.format_exc()
-            r = ctx.solver.check()
+            full = z3.Solver()          # the FULL path condition decides whether this path exists
+            full.set('timeout', 8000)
+            for p_ in ctx.pc:
+                full.add(p_)
+            r = full.check()
             if r != z3.unsat:
                 info = {'t': 0, 'safety': False, 'exception': '%s: %s' % (type(e).__name__, e),
                         'traceback': tb[-1500:], 'path': ''.join('T' if d else 'F' for d in ctx.trail)}
                 if r == z3.sat:
-                    info['model'] = sc.extract_model(ctx.solver.model())
+                    info['model'] = sc.extract_model(sc.small_model(full))
                     info['abstract'] = any(sc._uses_uf(p) for p in ctx.pc)
-                ctx.results.append(('no-exception', 'sat', info))
+                    ctx.results.append(('no-exception', 'sat', info))
+                else:
+                    info['reason'] = 'exception on a path whose feasibility is undecided: %s' % info['exception']
+                    ctx.results.append(('no-exception', 'unknown', info))
         npaths += 1
         for (name, verdict, info) in ctx.results:
             o = obl.setdefault(name, {'paths': 0, 'verdict': 'unsat', 't': 0.0, 'safety': info.get('safety', False)})
@@ -252,7 +259,7 @@ def match_known(known, oname):
 # -------------------------------------------------------------------- main check
 def check_property(prop, tier='quick', only=None, jobs=None, verbose=False, seed=0):
     t_start = time.time()
-    jobs = jobs or min(16, os.cpu_count() or 4)
+    jobs = jobs or min(12, os.cpu_count() or 4)
     mod, hs = load_contracts(prop)
     hs = [h for h in hs if tier in h.tiers]
     if only:
@@ -347,7 +354,7 @@ def check_property(prop, tier='quick', only=None, jobs=None, verbose=False, seed
     # bounded harnesses + vacuity covers (concrete, real code, /venv python)
     cover_jobs = [{'h': h.key, 'vi': vi} for h in sym_h if h.kind == 'proof' for vi in range(len(h.variants))]
     bnd_jobs = [{'h': h.key, 'vi': vi} for h in bnd_h for vi in range(len(h.variants))]
-    und_jobs = [{'h': o['h'], 'vi': o['vi']} for _, o in undecided]
+    und_jobs = [{'h': o['h'], 'vi': o['vi']} for _, o in undecided if o.get('h') and hmap[o['h']].kind != 'lemma']
     cover = {'runs': 0, 'checks': 0}
     bounded_info = {}
     if cover_jobs or bnd_jobs:
